@@ -41,6 +41,7 @@ func usage() {
 func main() {
 	defer cleanupHome()
 	registerDerived()
+	mergeLendParts()
 	if len(os.Args) < 2 {
 		usage()
 	}
